@@ -158,7 +158,21 @@ var ghosts [2]*ghost
 var t0 = time.Now().Truncate(time.Second)
 
 // NewWorld starts a daemon child process and brings its chains into the seven node states.
+// NewWorld starts a daemon world; a start that fails (a port handed out by FreePort can be taken by somebody else's
+// outgoing connection before the daemon binds it) is tried again with fresh ports.
 func NewWorld(logFile string, wrapper ...string) (*World, error) {
+	var w *World
+	var err error
+	for attempt := 0; attempt < 4; attempt++ {
+		if w, err = newWorldOnce(logFile, wrapper...); err == nil {
+			return w, nil
+		}
+		time.Sleep(300 * time.Millisecond)
+	}
+	return nil, err
+}
+
+func newWorldOnce(logFile string, wrapper ...string) (*World, error) {
 	sch, _ := crypto.SchemeFromName(crypto.DefaultSchemeID)
 	w := &World{sch: sch, me: map[string]*pdkg.Participant{}, terms: map[string]*pdkg.ProposalTerms{}, status0: map[string]string{}, started: time.Now(),
 		lastHead: map[string]uint64{}, lastHeadAt: map[string]time.Time{}}
